@@ -85,9 +85,102 @@ RULE = ("generated classes with 1-2 always-on blocks and 1-3 @dynamic_constraint
         "lowered formula with variables named by field, values; oracles: the reference semantics on the returned values, "
         "exhaustive satisfiability, and 'no other instance changes'")
 
+def dynamic_foreach_histories(ck, tier):
+    """A dynamic constraint that holds a foreach (over a scalar list and over a list of objects), named only in inline
+    blocks: it applies to the whole list as the list is at that call, it leaves no trace on calls that do not name it, and
+    a history that names it early equals, from then on, the history that does not."""
+    import random
+    import solvelib as S
+    S.install()
+    import vsc
+    from vsc.model.rand_state import RandState
+    rng = random.Random("C06/dynforeach/%d" % ck.seed)
+
+    def classes():
+        @vsc.randobj
+        class E:
+            def __init__(self):
+                self.x = vsc.rand_uint8_t()
+
+        @vsc.randobj
+        class P:
+            def __init__(self):
+                self.l = vsc.rand_list_t(vsc.uint8_t(), 2)
+                self.o = vsc.rand_list_t(E())
+                self.o.append(E())
+                self.o.append(E())
+
+            @vsc.dynamic_constraint
+            def small(self):
+                with vsc.foreach(self.l, idx=True) as i:
+                    self.l[i] < 10
+
+            @vsc.dynamic_constraint
+            def osmall(self):
+                with vsc.foreach(self.o) as e:
+                    e.x < 5
+        return E, P
+
+    def history(early, seeds, refill):
+        E, P = classes()
+        p = P()
+        out = []
+
+        def call(kind, sd):
+            p.set_randstate(RandState.mkFromSeed(sd))
+            try:
+                with common.quiet():
+                    if kind == "plain":
+                        p.randomize()
+                    else:
+                        with p.randomize_with() as it:
+                            it.small()
+                            it.osmall()
+                return ["ok", kind, [int(v) for v in p.l], [int(e.x) for e in p.o]]
+            except Exception as ex:
+                return ["raised", kind, type(ex).__name__]
+        if early:
+            call("dyn", seeds[0])
+        with common.quiet():
+            if refill:
+                p.o.clear()
+                p.l.clear()
+            for _ in range(3):
+                p.o.append(E())
+                p.l.append(0)
+        for k, sd in enumerate(seeds[1:]):
+            out.append(call("dyn" if k % 2 == 0 else "plain", sd))
+        return out
+    n = 60 if tier == "thorough" else 4
+    for rnd in range(n):
+        seeds = [rng.randrange(1 << 30) for _ in range(7)]
+        for refill in (False, True):
+            twin = history(False, seeds, refill)
+            got = history(True, seeds, refill)
+            ck.count("dynamic_foreach_histories")
+            case = {"seeds": seeds, "refill": refill}
+            for r in got:
+                if r[0] != "ok":
+                    ck.oracle_fail("dynamic-foreach:exception", case, r, "a normal return (the calls are satisfiable)")
+                    break
+                if r[1] == "dyn" and (any(v >= 10 for v in r[2]) or any(v >= 5 for v in r[3])):
+                    ck.oracle_fail("dynamic-foreach-not-applied-to-current-list", case, r, "l[*] < 10 and o[*].x < 5 over the lists as they are now")
+                    break
+            else:
+                # a plain call is not bound by the dynamic constraints: over the history some plain call exceeds them
+                plain = [r for r in got if r[1] == "plain"]
+                if plain and all(all(v < 10 for v in r[2]) and all(v < 5 for v in r[3]) for r in plain):
+                    ck.oracle_fail("inline-dynamic-constraint-left-a-trace", case, plain[:2], "plain calls are not bound by small()/osmall()")
+                if got != twin:
+                    k = next(i for i in range(len(twin)) if got[i] != twin[i])
+                    ck.oracle_fail("history-differs-after-early-inline-dynamic-call", dict(case, call=k), got[k], twin[k])
+
+
 if __name__ == "__main__":
     common.run_main(lambda: solvecheck.standard_main(
         "C06", ["C06"], THEOREMS, PROFILE, 300, 12000,
         ["as C01 for the solve itself", "dynamic blocks hold 1-3 one-bit expression statements (comparisons / in); references through "
          "lists of objects (subscripts) are not generated in this revision", "instances are all created before the first call"],
-        RULE))
+        RULE + "; dynamic constraints holding a foreach over a scalar list and a list of objects, named only inline, on lists that "
+        "grow or are refilled between the calls (applied to the current list, no trace on plain calls, history twins)",
+        extra=dynamic_foreach_histories))
